@@ -327,6 +327,27 @@ def job_accept(item):
         prog = parse_text(text)
     except LangError:
         return out
+    # "variables initialised" is one of the documented restrictions: a program that tests a variable it never initialised
+    # (symbolic initial value in a branch condition or in the guard) is outside the class C18 speaks about
+    from vlib.lang import cond_symbols, If
+    init_vars = set(prog.assigned_vars(prog.initial))
+    tested = set(cond_symbols(prog.guard))
+    for a in prog.all_assigns(prog.body):
+        tested |= cond_symbols(a.cond)
+
+    def walk(ss):
+        for st in ss:
+            if isinstance(st, If):
+                for c in st.conds:
+                    tested.update(cond_symbols(c))
+                for b in st.branches:
+                    walk(b)
+                if st.else_branch:
+                    walk(st.else_branch)
+    walk(prog.body)
+    if any(v in tested and v not in init_vars for v in prog.assigned_vars(prog.body)):
+        out["outside"] = 1
+        return out
     res = polar_iface.closed_forms(text, [], per_goal_timeout=60)
     out["checked"] += 1
     if res["exc"]:
